@@ -340,4 +340,3 @@ func Protect2(f func() (string, int)) (s string, n int) {
 	}
 	return
 }
-
